@@ -83,7 +83,8 @@ def run(ctx):
         cv = [x for x in cnt if x.conds[-1] == (ENT, False)]
         r.check('counter:occupied-skips', len(co) == 1 and co[0].done == 'iterate' and not [e for e in co[0].effects if 'insert' in e or 'make_entry' in e], site, built=[x.row() for x in co],
                 expected='an occupied id is skipped (continue), never overwritten')
-        r.check('counter:vacant-inserts', len(cv) == 1 and 'value:make_entry($s0)' in cv[0].effects and cv[0].done == 'return' and cv[0].value_str() == 'Ok(value:make_entry($s0)?.1)',
+        r.check('counter:vacant-inserts', len(cv) == 1 and 'value:make_entry($s0)' in cv[0].effects and cv[0].done in ('return', None) and cv[0].value_str() == 'Ok(value:make_entry($s0)?.1)'
+                and any(e.startswith('std::collections::HashMap::insert(self.slots, $s0, value:make_entry($s0)?.0)') for e in cv[0].effects),
                 site, built=[x.row() for x in cv])
         POP = 'std::option::Option::ok_or(indexmap::IndexSet::pop(self.freed_channel_ids), errors::Error::ExhaustedChannelIds)?'
         fo = [x for x in fb if x.conds[-1] == ('std::collections::HashMap::contains_key(self.slots, %s)' % POP, True)]
@@ -94,7 +95,8 @@ def run(ctx):
             r.check('fallback:stale-id-skipped', fo[0].done == 'iterate' and 'unreachable!()' not in fo[0].effects, site, built=fo[0].row(),
                     expected='an occupied (re-opened) freed id is skipped, not a panic', why='open(Some(1)), close, open(Some(1)) leaves 1 in the freed set')
         if fv:
-            r.check('fallback:vacant-inserts', fv[0].done == 'return' and 'value:make_entry(%s)' % POP in fv[0].effects, site, built=fv[0].row())
+            r.check('fallback:vacant-inserts', fv[0].done in ('return', None) and 'value:make_entry(%s)' % POP in fv[0].effects
+                    and any(e.startswith('std::collections::HashMap::insert(self.slots, %s, value:make_entry(%s)?.0)' % (POP, POP)) for e in fv[0].effects), site, built=fv[0].row())
         # counter starts at 1
         rows = P.table(ctx, CSL + 'new', [])
         t = rows[0].value if rows else None
@@ -114,8 +116,10 @@ def run(ctx):
                 continue
             for nd in H.walk(fn['hir']):
                 if nd.get('k') == 'MethodCall' and nd['name'] in ('remove', 'drain', 'insert', 'clear', 'retain', 'remove_entry') and H.term(nd['recv']) == 'self.slots':
-                    muts.setdefault(p.split('::')[-1], []).append(nd['name'])
-        r.eq('map-mutators', muts, {'remove': ['remove'], 'drain': ['drain']}, None, why='slots is mutated directly only by remove/drain (and through the entry API in the insert paths)')
+                    muts.setdefault(ctx.owner(p).split('::')[-1], []).append(nd['name'])
+        # the two insert paths may store through the vacant entry or by a plain insert behind their presence test (R10.1 / R10.2 judge the test)
+        shown = {k: v for k, v in muts.items() if not (k in ('insert', 'insert_unused_channel_id') and set(v) <= {'insert'})}
+        r.eq('map-mutators', shown, {'remove': ['remove'], 'drain': ['drain']}, None, why='slots is mutated only by remove/drain and by the two insert paths')
 
     with ctx.rule('R10.4', 'the never-used counter cannot wrap or stall', floor=1) as r:
         ok, why = panics.Checkers(ctx).run('never_used_counter_cannot_overflow')
